@@ -382,6 +382,77 @@ def spanmon_shard(args):
     return agg
 
 
+def shared_path_shard(args):
+    """Several distinct sources that carry the same display path, rendered one after another by one Session (virtual sources
+    loaded under one name; a name equal to the standard library's): every diagnostic must quote and locate its own source."""
+    seed, n = args
+    rng = random.Random(seed)
+    agg = Agg()
+    srv = Server()
+    try:
+        for i in range(n):
+            path = rng.choice(["<in>", "same.jsonnet", "<stdlib>", "dir/x.libsonnet", "-"])
+            k = rng.choice([2, 2, 3])
+            srcs = []
+            for j in range(k):
+                pad = rng.choice(["", " ", "\n", "\n\n\n   ", "\n" * rng.randint(4, 40) + " " * rng.randint(0, 30), "/* c */ ", "local zz = 1;\n"])
+                body = rng.choice(["error 'MSG'", "std.map(function(x) error 'MSG', [1])[0]", "{a: error 'MSG'}.a", "local f(x) = error 'MSG'; f(1)",
+                                   "std.length(std.toString(error 'MSG'))"]).replace("MSG", "m%d_%d" % (i, j))
+                srcs.append((pad, body))
+            colour = rng.randrange(2)
+            lines = ["SESS %d %s" % (colour, rng.choice(["-", "0", "2", "7"]))]
+            for j, (pad, body) in enumerate(srcs):
+                lines.append("LOAD %d %s %s 1" % (j, hx(path), hx(pad + body)))
+                lines.append("EVAL %d %d 0" % (j, j))
+            agg.evaluations += 1
+            try:
+                recs = srv.request(lines, timeout=120)
+                err = srv.stderr_since().decode("utf-8", "replace")
+            except Crashed as e:
+                if e.kind in ("timeout", "oom"):
+                    agg.inconc(e.kind)
+                    continue
+                agg.violation({"kind": "render_crash", "family": "shared_path"}, {"sources": [p_ + b_ for p_, b_ in srcs], "crash": e.detail[-300:]}, {"script": lines})
+                continue
+            desc = {"path": path, "sources": [p_ + b_ for p_, b_ in srcs]}
+            pan = [r for r in recs if r.status == "PANIC"]
+            if pan:
+                agg.violation({"kind": "panic", "where": "session", "msg": re.sub(r"[0-9]+", "N", pan[0].s("msg") or "")[:120],
+                               "loc": re.sub(r":[0-9]+$", "", pan[0].s("loc") or "")}, dict(desc, panic=pan[0].s("msg")), {"script": lines})
+                continue
+            plain = ANSI.sub("", err)
+            segs = re.split(r"\x1e[0-9]+\n", plain)
+            ok = True
+            for j, (pad, body) in enumerate(srcs):
+                msg = "m%d_%d" % (i, j)
+                seg = next((sg for sg in segs if "error: explicit error: " + msg in sg), None)
+                if seg is None:
+                    agg.violation({"kind": "no_error_header", "family": "shared_path"}, dict(desc, which=j, rendered=plain[:800]), {"script": lines})
+                    ok = False
+                    break
+                src = (pad + body).encode()
+                start = len(pad.encode()) + body.index("error '")
+                line, col = expected_line_col(src, start)
+                m = re.search(r"^ *--> (.*):([0-9]+):([0-9]+)$", seg, re.M)
+                if m is None or m.group(1) != path or int(m.group(2)) != line or (col is not None and int(m.group(3)) != col):
+                    agg.violation({"kind": "wrong_line_or_column", "family": "shared_path"},
+                                  dict(desc, which=j, expected=[path, line, col], got=(m.groups() if m else None), rendered=seg[:600]), {"script": lines})
+                    ok = False
+                    break
+                if ("error '%s'" % msg) not in seg.split("\n", 1)[1]:
+                    agg.violation({"kind": "diagnostic_quotes_another_source", "family": "shared_path"},
+                                  dict(desc, which=j, rendered=seg[:600]), {"script": lines})
+                    ok = False
+                    break
+            if ok:
+                agg.count("shared_path_ok")
+                agg.add("shared_paths", path)
+                agg.nontrivial.add(common.h64("shared", repr(srcs), path))
+    finally:
+        srv.close()
+    return agg
+
+
 def fuzz_judge(agg, d):
     """Re-run fuzz artifacts that belong to C16: the in-process span-containment monitor, and any panic raised while a
     diagnostic is located or rendered (span manager, report code, the annotation dependency)."""
@@ -447,6 +518,8 @@ def run(tier, seed):
     n = 2500 if quick else 150000
     for a in common.pmap(mutants_shard, [(seed * 811 + i, n // 32) for i in range(32)]):
         total.merge(a)
+    for a in common.pmap(shared_path_shard, [(seed * 823 + i, 40 if quick else 2000) for i in range(16)]):
+        total.merge(a)
     depths = [0, 1, 2, 3, 4, 6, 7, 8, 9, 15, 100] if quick else list(range(0, 20)) + [50, 100, 499, 1000, 3000, 10000]
     for a in common.pmap(long_trace_shard, [(seed, depths[i::8]) for i in range(8)]):
         total.merge(a)
@@ -460,7 +533,8 @@ def run(tier, seed):
     rule = (f"{len(FAILING)} failing templates (one per error family/kind: lexical, syntactic, static, run-time incl. "
             "imports, asserts, type errors, overflows, cycles) x paddings that move the error (first byte, after CRLF / "
             "tab / multi-byte / invalid UTF-8 / 100 000-column lines / 40 blank lines) + " + str(len(MULTILINE)) + " templates whose error span covers "
-            "several lines and straddles the lines 9|10, 99|100, 999|1000 + corpus mutants: (1) every "
+            "several lines and straddles the lines 9|10, 99|100, 999|1000 + several distinct sources under one display path rendered by one "
+            "Session (each diagnostic must quote and locate its own source) + corpus mutants: (1) every "
             "span of the structured error and of each stack-trace item lies inside its source with start <= end; (2) "
             "rendered by Session plain and coloured with max_trace in {none,0,1,2,3,7}: no failure, an 'error:' "
             "header, the first location line names the file, the line computed from the span start and (for "
